@@ -32,8 +32,9 @@ MANIFEST = {
     "ref": "6 C13",
 }
 RULE = ("the real ConcurrentTestSuite / ConcurrentStreamTestSuite with 0-4 sub-suites of 0-3 tests (classic: scripted "
-        "TestResult calls through the ThreadsafeForwardingResult incl. tags/times/all outcomes; stream: status events "
-        "with own route codes), sub-suites whose run() raises (Exception -> broken-runner, BaseException -> thread "
+        "TestResult calls through the ThreadsafeForwardingResult incl. tags/times/all outcomes; stream: stream-native "
+        "workers emitting status events with own route codes and the timestamp keyword left out / passed explicitly "
+        "as None with the full status() signature (a replayed event dict) / set to the worker's own datetime), sub-suites whose run() raises (Exception -> broken-runner, BaseException -> thread "
         "dies), make_tests raising after k sub-suites, an interrupt at the n-th queue.get, the caller's result raising "
         "at a chosen call; schedules: every schedule with <= 1 (quick) / <= 2 (thorough) preemptions for fixed "
         "programs, seeded random otherwise; non-trivial = >= 2 workers each emitting >= 1 event; distinct = distinct JSON")
@@ -83,7 +84,30 @@ class ClassicSub:
             c12.apply_call(result, c)
 
 
+def ev_ts(c):
+    """how the worker spells the timestamp argument: "omit" | "none" | n (its own datetime number n)"""
+    return c[4] if len(c) > 4 else "omit"
+
+
+def own_datetime(n):
+    import datetime
+    from testtools.testresult.real import utc
+    return datetime.datetime(2000, 1, 1, tzinfo=utc) + datetime.timedelta(seconds=n)
+
+
+def ts_kind(timestamp):
+    """a timestamp as seen on the queue / by the caller's result: "no" | "now" | n (a worker's own datetime)"""
+    if timestamp is None:
+        return "no"
+    if timestamp.year == 2000:
+        import datetime
+        return int((timestamp.replace(tzinfo=None) - datetime.datetime(2000, 1, 1)).total_seconds())
+    return "now"
+
+
 class StreamSub:
+    """a stream-native sub-suite: emits StreamResult events directly (allowed by the run() docstring)"""
+
     def __init__(self, w, script, exc):
         self.w, self.script, self.exc = w, script, exc
 
@@ -91,8 +115,18 @@ class StreamSub:
         for c in self.script:
             if c[0] == "raise":
                 raise self.exc()
-            result.status(test_id="t%d" % c[1], test_status=STATUSES[c[2]],
-                          route_code=None if c[3] is None else "x%d" % c[3])
+            route = None if c[3] is None else "x%d" % c[3]
+            ts = ev_ts(c)
+            if ts == "omit":      # keyword left out
+                result.status(test_id="t%d" % c[1], test_status=STATUSES[c[2]], route_code=route)
+            elif ts == "none":    # a recorded event dict replayed with status(**event): every keyword spelled out
+                event = dict(test_id="t%d" % c[1], test_status=STATUSES[c[2]], test_tags=None, runnable=True,
+                             file_name=None, file_bytes=None, eof=False, mime_type=None, route_code=route,
+                             timestamp=None)
+                result.status(**event)
+            else:                 # its own timestamp
+                result.status(test_id="t%d" % c[1], test_status=STATUSES[c[2]], route_code=route,
+                              timestamp=own_datetime(ts))
 
 
 def parse_route(rc):
@@ -143,7 +177,8 @@ def describe_item(item):
             return ["start" if ev == "startTestRun" else "stop", w]
         w, own = parse_route(item.get("route_code"))
         st = item.get("test_status")
-        return ["status", w, parse_id(item.get("test_id"), w), STATUSES.index(st) if st in STATUSES else 99, own]
+        return ["status", w, parse_id(item.get("test_id"), w), STATUSES.index(st) if st in STATUSES else 99, own,
+                ts_kind(item.get("timestamp"))]
     return ["token", getattr(item, "w", 998)]
 
 
@@ -172,7 +207,7 @@ class StreamTarget:
         w, own = parse_route(route_code)
         st = STATUSES.index(test_status) if test_status in STATUSES else 99
         self._trace.append((self._sched.current_tid(), "status", w, parse_id(test_id, w), st, own,
-                            timestamp is not None, raised))
+                            ts_kind(timestamp), raised))
         if raised:
             raise self._exc()
 
@@ -290,6 +325,14 @@ def drive(case):
 
 
 # ---------------- Gallina ----------------
+def t_tstamp(k):
+    return "TNo" if k == "no" else "TNow" if k == "now" else "(TOwn %s)" % q.nat(k)
+
+
+def t_tsarg(k):
+    return "TsOmit" if k == "omit" else "TsNone" if k == "none" else "(TsAt %s)" % q.nat(k)
+
+
 def t_qitem(d):
     if d[0] == "token":
         return "(QToken %s)" % q.nat(d[1])
@@ -297,7 +340,7 @@ def t_qitem(d):
         return "(QStart %s)" % q.nat(d[1])
     if d[0] == "stop":
         return "(QStop %s)" % q.nat(d[1])
-    return "(QStatus %s %s %s %s)" % (q.nat(d[1]), q.nat(d[2]), q.nat(d[3]), q.option(d[4], q.nat))
+    return "(QStatus %s %s %s %s %s)" % (q.nat(d[1]), q.nat(d[2]), q.nat(d[3]), q.option(d[4], q.nat), t_tstamp(d[5]))
 
 
 def t_cev(e):
@@ -321,7 +364,7 @@ def t_cev(e):
         return "(%s, CGetIntr)" % t
     if k == "status":
         return "(%s, CStatus %s %s %s %s %s %s)" % (t, q.nat(e[2]), q.nat(e[3]), q.nat(e[4]), q.option(e[5], q.nat),
-                                                   q.boolean(e[6]), q.boolean(e[7]))
+                                                   t_tstamp(e[6]), q.boolean(e[7]))
     raise ValueError(e)
 
 
@@ -332,7 +375,7 @@ def t_rcall(c):
 def t_sitem(c):
     if c[0] == "raise":
         return "SRaise"
-    return "(SEv %s %s %s)" % (q.nat(c[1]), q.nat(c[2]), q.option(c[3], q.nat))
+    return "(SEv %s %s %s %s)" % (q.nat(c[1]), q.nat(c[2]), q.option(c[3], q.nat), t_tsarg(ev_ts(c)))
 
 
 def term(case, o):
@@ -395,15 +438,28 @@ def rand_classic_suite(rng, w, allow_faults=True):
     return csuite(script, faults)
 
 
+def rand_ts(rng, style):
+    """how one event spells its timestamp, per worker style: a unittest-like worker always leaves it out, a
+    replaying worker always passes None explicitly, a worker with a clock passes its own, mixed ones vary"""
+    if style == "omit":
+        return "omit"
+    if style == "none":
+        return "none"
+    if style == "own":
+        return rng.randrange(1, 60)
+    return rng.choice(["omit", "none", rng.randrange(1, 60)])
+
+
 def rand_stream_suite(rng, w):
     script = []
+    style = rng.choice(["omit", "omit", "none", "own", "mixed", "mixed"])
     for j in range(rng.randint(0, 3)):
         t = 10 * (w + 1) + j
         if rng.random() < 0.8:
-            script.append(["ev", t, 0, None])
+            script.append(["ev", t, 0, None, rand_ts(rng, style)])
         if rng.random() < 0.15:
-            script.append(["ev", t, 4, rng.choice([None, 1])])
-        script.append(["ev", t, rng.choice([1, 2, 3, 5, 6]), rng.choice([None, None, 1, 2])])
+            script.append(["ev", t, 4, rng.choice([None, 1]), rand_ts(rng, style)])
+        script.append(["ev", t, rng.choice([1, 2, 3, 5, 6]), rng.choice([None, None, 1, 2]), rand_ts(rng, style)])
     if rng.random() < 0.25:
         script.insert(rng.randint(0, len(script)), ["raise"])
     return ssuite(script)
@@ -412,9 +468,9 @@ def rand_stream_suite(rng, w):
 FIXED_CLASSIC = [csuite(c12.mk_test(11, 0, 1, 2) + c12.mk_test(12, 1, 3, 4, in_tags=[([1], [])])),
                  csuite([["tags", [7], []]] + c12.mk_test(21, 2, 5, 6) + [["raise"]]),
                  csuite(c12.mk_test(31, 3, None, 7))]
-FIXED_STREAM = [ssuite([["ev", 11, 0, None], ["ev", 11, 1, None], ["ev", 12, 0, 1], ["ev", 12, 2, 1]]),
-                ssuite([["ev", 21, 0, None], ["raise"], ["ev", 21, 1, None]]),
-                ssuite([["ev", 31, 3, 2]])]
+FIXED_STREAM = [ssuite([["ev", 11, 0, None, "omit"], ["ev", 11, 1, None, "none"], ["ev", 12, 0, 1, 5], ["ev", 12, 2, 1, "none"]]),
+                ssuite([["ev", 21, 0, None, "none"], ["raise"], ["ev", 21, 1, None, "omit"]]),
+                ssuite([["ev", 31, 3, 2, 9]])]
 
 
 def generate(rng, tier):
@@ -422,7 +478,7 @@ def generate(rng, tier):
     quick = tier == "quick"
     # ---- corner cases
     for v in ("classic", "stream"):
-        one = csuite(c12.mk_test(1, 0, 1, 2)) if v == "classic" else ssuite([["ev", 1, 0, None], ["ev", 1, 1, None]])
+        one = csuite(c12.mk_test(1, 0, 1, 2)) if v == "classic" else ssuite([["ev", 1, 0, None, "none"], ["ev", 1, 1, None, "omit"]])
         cases.append(mk_case(v, [], []))
         cases.append(mk_case(v, [], [], mt_raise=0))
         cases.append(mk_case(v, [one], []))
@@ -433,6 +489,11 @@ def generate(rng, tier):
         cases.append(mk_case(v, [one, one], [1] * 12 + [0] * 4 + [2] * 12, get_intr=1, base=True))
         cases.append(mk_case(v, [one, one], [0, 0, 1, 2] * 10, main_faults=[0]))
         cases.append(mk_case(v, [one, one], [0, 0, 1, 2] * 10, get_intr=0, main_faults=[0]))
+    # stream-native workers spelling the timestamp in each way, alone and next to each other
+    for kinds in (["omit"], ["none"], [3], ["none", "omit", 4], [7, "none", "none"]):
+        sc = [["ev", 40 + j, [0, 1, 2][j % 3], None if j % 2 == 0 else 1, k] for j, k in enumerate(kinds)]
+        cases.append(mk_case("stream", [ssuite(sc)], []))
+        cases.append(mk_case("stream", [ssuite(sc), ssuite(list(reversed(sc)))], [1, 2, 0] * 10))
     # a worker LEAVING _run_test with an exception must still post its completion token:
     # (a) run() raises and the caller's result raises while the broken-runner test is reported,
     # (b) run() raises something that is not an Exception (sys.exit() in a test); next to a healthy worker
@@ -512,6 +573,10 @@ def shrink(case):
             yield dict(case, suites=ss[:w] + [dict(s, script=s["script"][:j] + s["script"][j + 1:])] + ss[w + 1:])
         for j in range(len(s.get("faults", []))):
             yield dict(case, suites=ss[:w] + [dict(s, faults=s["faults"][:j] + s["faults"][j + 1:])] + ss[w + 1:])
+        for j, c in enumerate(s["script"]):
+            if c[0] == "ev" and ev_ts(c) != "omit":     # the plainest spelling of the timestamp
+                yield dict(case, suites=ss[:w] + [dict(s, script=s["script"][:j] + [c[:4] + ["omit"]] + s["script"][j + 1:])]
+                           + ss[w + 1:])
     for key in ("mt_raise", "get_intr"):
         if case[key] is not None:
             yield dict(case, **{key: None})
@@ -530,7 +595,8 @@ def shrink(case):
 
 def distribution(cases):
     d = {"variant": {}, "workers": {}, "mt_raise": 0, "get_intr": 0, "main_faults": 0, "base_exception": 0,
-         "suites_that_raise": 0, "worker_faults": 0, "sched_len": {}}
+         "suites_that_raise": 0, "worker_faults": 0, "sched_len": {},
+         "stream_events_by_timestamp_argument": {"omitted": 0, "explicit None": 0, "own": 0}}
     for c in cases:
         d["variant"][c["variant"]] = d["variant"].get(c["variant"], 0) + 1
         nw = len(c["suites"])
@@ -541,6 +607,13 @@ def distribution(cases):
         d["base_exception"] += c["base"]
         d["suites_that_raise"] += any(x[0] == "raise" for s in c["suites"] for x in s["script"])
         d["worker_faults"] += any(s.get("faults") for s in c["suites"])
+        if c["variant"] == "stream":
+            for su in c["suites"]:
+                for x in su["script"]:
+                    if x[0] == "ev":
+                        k = ev_ts(x)
+                        d["stream_events_by_timestamp_argument"][
+                            "omitted" if k == "omit" else "explicit None" if k == "none" else "own"] += 1
         b = min(len(c["sched"]) // 10 * 10, 100)
         d["sched_len"][b] = d["sched_len"].get(b, 0) + 1
     return d
